@@ -42,11 +42,12 @@ pub fn check<S: Sim>(prop: &str, tier: Tier, args: &[String]) -> i32 {
     );
     let res = runner::run_check::<S>(prop, tier, seed, workers, limit, false, args.iter().any(|a| a == "--spread"));
     let rep = runner::report::<S>(prop, seed, &res);
-    // vacuity: required probes must have fired
+    // vacuity: required probes must have fired (whole plans only)
     let mut vacuous = Vec::new();
     // (the AddressSanitizer pass forces the system allocator: probes of the allocator seam cannot fire there)
     let forced_system = std::env::var("LMSIM_FORCE_ALLOC").map(|v| v == "system").unwrap_or(false);
-    if limit.is_none() && !forced_system {
+    let restricted = std::env::var("LMSIM_PHASES").map(|v| !v.trim().is_empty()).unwrap_or(false);
+    if limit.is_none() && !forced_system && !restricted {
         for p in S::required_probes(prop, tier) {
             if res.totals.probes.get(p).copied().unwrap_or(0) == 0 {
                 vacuous.push(p);
